@@ -795,6 +795,8 @@ bool BW_MidiSequencer::buildSmfTrackData(const std::vector<std::vector<uint8_t> 
                     MidiTrackRow &previous = m_trackData[tk].back();
                     previous.delay = 0;
                     previous.timeDelay = 0;
+                    // Keep tick positions consistent with the removed delay (the time line is rebuilt from them)
+                    abs_position = previous.absPos;
                 }
             }
 #endif
